@@ -591,7 +591,10 @@ func (r *fileRewriter) expr(e ast.Expr) ast.Expr {
 			case pkg == "context" && name == "WithCancel":
 				r.stats["ctx"]++
 				return r.vrt("WithCancel")
-			case pkg == "context" && (name == "WithTimeout" || name == "WithDeadline" || name == "AfterFunc" || name == "WithCancelCause" || name == "WithTimeoutCause" || name == "WithDeadlineCause"):
+			case pkg == "context" && name == "AfterFunc":
+				r.stats["ctx"]++
+				return r.vrt("AfterFunc")
+			case pkg == "context" && (name == "WithTimeout" || name == "WithDeadline" || name == "WithCancelCause" || name == "WithTimeoutCause" || name == "WithDeadlineCause"):
 				r.fail(x, "context.%s is not supported (real timers / cancellation the channel model cannot see)", name)
 			}
 			return e
